@@ -18,3 +18,22 @@ pub open spec fn unchanged_by_statement(p: Node, n: Node, ignore_ctime: bool) ->
     p.node_type == n.node_type && p.meta.size == n.meta.size && p.meta.mtime == n.meta.mtime
     && (ignore_ctime || p.meta.ctime is None || n.meta.ctime is None || p.meta.ctime == n.meta.ctime)
 }
+
+// ---- Parent::p_node: the lookup of a name in one (sorted) parent tree ----
+pub struct NameR { pub _opaque: u64 }
+pub enum Ordering { Less, Equal, Greater }
+// Ord of OsStr (byte-wise): an uninterpreted strict total order
+pub uninterp spec fn name_lt(a: NameR, b: NameR) -> bool;
+impl NameR {
+    #[verifier::external_body]
+    pub fn cmp(&self, other: &NameR) -> (r: Ordering)
+        ensures r is Less <==> name_lt(*self, *other), r is Equal <==> *self == *other, r is Greater <==> name_lt(*other, *self),
+    { unimplemented!() }
+}
+pub struct PNode { pub n: Node, pub name: NameR }
+impl PNode {
+    // Node::name(): the unescaped name
+    #[verifier::external_body]
+    pub fn name(&self) -> (r: &NameR) ensures *r == self.name, { unimplemented!() }
+}
+pub struct PTree { pub nodes: Vec<PNode> }
